@@ -68,25 +68,22 @@ func c03BuildActionModel(r *core.R, extraAttrs, extraElems []string) *c03ActionM
 		}
 		field, consistent := "", true
 		for _, pa := range paths {
-			// did the path look at an attribute of the start element it was handed?
-			var attrs *c03V
-			for i := range pa.St.Trace {
-				e := &pa.St.Trace[i]
-				if e.Kind == "range" && e.Target.IsInit("param") && e.Target.Root.Obj == m.start && len(e.Target.Path) == 1 && e.Target.Path[0].Name() == "Attr" {
-					attrs = e.Target
-					m.AttrSeen[a] = true
-					m.AttrPos[a] = e.Node.Pos()
+			// the start element carries attributes (scenario): whatever form the loop over them has (range, index
+			// loop, helper), every path went through it
+			m.AttrSeen[a] = true
+			isAttrValue := func(v *c03V) bool {
+				if v.K != c03KInit || v.Root.Kind != "elem" || v.Root.Of == nil || len(v.Path) != 1 || v.Path[0].Name() != "Value" {
+					return false
 				}
-			}
-			if attrs == nil {
-				continue
+				of := v.Root.Of
+				return of.IsInit("param") && of.Root.Obj == m.start && len(of.Path) == 1 && of.Path[0].Name() == "Attr"
 			}
 			got := ""
 			rv := pa.St.Var(m.recv)
 			for i := 0; i < actST.NumFields(); i++ {
 				f := actST.Field(i)
 				v := x.field(pa.St, rv, f, un.Decl, nil)
-				if v.K == c03KInit && v.Root.Kind == "elem" && v.Root.Of != nil && v.Root.Of.Key == attrs.Key && len(v.Path) == 1 && v.Path[0].Name() == "Value" {
+				if isAttrValue(v) {
 					got = f.Name()
 				}
 			}
